@@ -37,9 +37,20 @@ def snap_full(db, old_len):
 
 
 def run_history(tid, ops, events, init_db):
-    mgr = RuleImputeManager(copy.deepcopy(init_db))
+    shared = copy.deepcopy(init_db)
+    handles = {"A": RuleImputeManager(shared)}
+    mgr = handles["A"]
     events.append({"ev": "begin", "tid": tid, "step": 0, "after": snap(mgr.database)})
     for step, op in enumerate(ops, 1):
+        # an operation may come through a second manager object created on the SAME list ("via": "B"): the database
+        # is one object however many handles edit it
+        via = op.get("via", "A")
+        if via not in handles:
+            if handles["A"].database:
+                handles[via] = RuleImputeManager(handles["A"].database)
+            else:
+                via = "A"     # the constructor does not adopt an EMPTY list (database or []): no shared object yet
+        mgr = handles[via]
         old = len(mgr.database)
         sink = io.StringIO()
         with contextlib.redirect_stdout(sink):
@@ -121,6 +132,36 @@ def main():
                 ops.append({"op": "remove", "formula": rng.choice(cand)})
         tid += 1
         run_history(tid, ops, events, base)
+    # two handles on one database list: an entry leaves through one handle and another arrives, then the first handle
+    # is offered both (the arrived one must be rejected, the departed one accepted), plus random two-handle histories
+    n_two = 0
+    for k in range(12 if tier == "quick" else 150):
+        base = copy.deepcopy(dbs[k % len(dbs)][:6]) if k % 2 else []
+        (fx, sx), (fy, sy), (fz, sz) = rng.sample([p for p in pool if oracle.parse(p[1]) is not None], 3)
+        ops = [{"op": "add", "formula": fz, "smiles": sz, "via": "A"}, {"op": "add", "formula": fx, "smiles": sx, "via": "A"},
+               {"op": "remove", "formula": fx, "via": "B"}, {"op": "add", "formula": fy, "smiles": sy, "via": "B"},
+               {"op": "add", "formula": fy, "smiles": sy, "via": "A"}, {"op": "add", "formula": fx, "smiles": sx, "via": "A"},
+               {"op": "bulk", "entries": [{"formula": fy, "smiles": sy}, {"formula": fz, "smiles": sz}], "via": "B"},
+               {"op": "remove", "formula": fz, "via": "A"}, {"op": "add", "formula": fz, "smiles": sz, "via": "B"}]
+        tid += 1
+        n_two += 1
+        run_history(tid, ops, events, base)
+    for k in range(15 if tier == "quick" else 200):
+        ops = []
+        for _ in range(rng.randint(6, 14)):
+            c = rng.random()
+            via = rng.choice("AB")
+            if c < 0.55:
+                f, s_ = rng.choice(pool)
+                ops.append({"op": "add", "formula": f, "smiles": s_, "via": via})
+            elif c < 0.65:
+                ents = [dict(zip(("formula", "smiles"), rng.choice(pool))) for _ in range(rng.randint(1, 3))]
+                ops.append({"op": "bulk", "entries": ents, "via": via})
+            else:
+                ops.append({"op": "remove", "formula": rng.choice([p[0] for p in pool]), "via": via})
+        tid += 1
+        n_two += 1
+        run_history(tid, ops, events, [])
     # AutomaticRulesExtraction: formulas derived from the SMILES, then one bulk add on a shipped database
     from synrbl.SynRuleImputer.auto_extract_rules import AutomaticRulesExtraction
     n_auto = 0
@@ -146,7 +187,7 @@ def main():
             e["rejected"] = []
             e["no_rejected_list"] = True
     common.write_ndjson(out_file, events)
-    print(json.dumps({"events": len(events), "tlc_histories": n_tlc, "auto_extraction_runs": n_auto, "random_histories": tid - n_tlc,
+    print(json.dumps({"events": len(events), "tlc_histories": n_tlc, "auto_extraction_runs": n_auto, "two_handle_histories": n_two, "random_histories": tid - n_tlc,
                       "shipped_db_sizes": [len(d) for d in dbs]}))
 
 
